@@ -52,10 +52,26 @@ impl DelegationManager {
 
     /// Load persisted delegation records from the store.
     pub fn load(store: &TensorStore, max_depth: u32) -> Self {
+        Self::load_sealed(store, max_depth, |b| Ok(b.to_vec()))
+    }
+
+    /// Load records persisted with `persist_sealed` (legacy plaintext records are still read).
+    pub fn load_sealed(
+        store: &TensorStore,
+        max_depth: u32,
+        open: impl Fn(&[u8]) -> Result<Vec<u8>>,
+    ) -> Self {
         let mgr = Self::new(max_depth);
         for key in store.scan(DELEGATION_PREFIX) {
             if let Ok(data) = store.get(&key) {
-                if let Some(TensorValue::Scalar(ScalarValue::String(json))) = data.get("_record") {
+                let json = match data.get("_record") {
+                    Some(TensorValue::Scalar(ScalarValue::String(json))) => Some(json.clone()),
+                    Some(TensorValue::Scalar(ScalarValue::Bytes(sealed))) => open(sealed)
+                        .ok()
+                        .and_then(|plain| String::from_utf8(plain).ok()),
+                    _ => None,
+                };
+                if let Some(json) = &json {
                     if let Ok(record) = serde_json::from_str::<DelegationRecord>(json) {
                         let record_key = key
                             .strip_prefix(DELEGATION_PREFIX)
@@ -80,6 +96,24 @@ impl DelegationManager {
                 let mut data = tensor_store::TensorData::new();
                 data.set("_record", TensorValue::Scalar(ScalarValue::String(json)));
                 store.put(&storage_key, data).ok();
+            }
+        }
+    }
+
+    /// Persist all records with the serialized record (which names secrets) passed through
+    /// `seal` (encryption) first.
+    pub fn persist_sealed(&self, store: &TensorStore, seal: impl Fn(&[u8]) -> Result<Vec<u8>>) {
+        for key in store.scan(DELEGATION_PREFIX) {
+            store.delete(&key).ok();
+        }
+        for entry in &self.records {
+            let storage_key = format!("{DELEGATION_PREFIX}{}", entry.key());
+            if let Ok(json) = serde_json::to_vec(entry.value()) {
+                if let Ok(sealed) = seal(&json) {
+                    let mut data = tensor_store::TensorData::new();
+                    data.set("_record", TensorValue::Scalar(ScalarValue::Bytes(sealed)));
+                    store.put(&storage_key, data).ok();
+                }
             }
         }
     }
